@@ -221,6 +221,18 @@ class MetaHybridClass(type):
         return new_class
 
 
+def _differs_from_default(default, value):
+    if hasattr(default, "to_str"):  # xo.String
+        default = default.to_str()
+    if hasattr(value, "shape"):  # array: compare shape and content
+        if hasattr(default, "to_nparray"):
+            default = default.to_nparray()
+        default = np.asarray(default)
+        if default.shape != tuple(value.shape):
+            return True
+    return bool(np.any(default != value))
+
+
 class HybridClass(metaclass=MetaHybridClass):
     _movable = True
     _overridable = True
@@ -319,7 +331,9 @@ class HybridClass(metaclass=MetaHybridClass):
         defaults = {}
         for field in obj._XoStruct._fields:
             try:
-                defaults[field.name] = field.get_default()
+                # keyed by the python name, which is what is looked up below
+                pyname = obj._rename.get(field.name, field.name)
+                defaults[pyname] = field.get_default()
             except (TypeError, ValueError):
                 # The above can fail with different error types
                 # if a field type is dynamic.
@@ -331,8 +345,12 @@ class HybridClass(metaclass=MetaHybridClass):
                 out[ff] = vv.to_dict()
             elif hasattr(vv, "_to_dict"):
                 out[ff] = vv._to_dict()
-            elif np.any(defaults.get(ff) != vv):
-                # Only include those scalar values that are not default.
+            elif ff in defaults:
+                # Only include those values that are not default.
+                if _differs_from_default(defaults[ff], vv):
+                    out[ff] = vv
+            elif vv is not None:
+                # No default: the value is needed to rebuild the object
                 out[ff] = vv
 
         return out
